@@ -4,9 +4,13 @@ targets (and optionally others), restores /repo, and prints / records the verdic
 import json, os, subprocess, sys
 ROOT = "/verif/seeded"
 res = {}
+only = sys.argv[1:]          # optional: prefixes of the seeds to re-run (the others keep their recorded verdict)
+if only and os.path.exists(os.path.join(ROOT, "REGRESSION.json")):
+    res = json.load(open(os.path.join(ROOT, "REGRESSION.json")))
 for d in sorted(os.listdir(ROOT)):
     pd = os.path.join(ROOT, d, "patch.diff")
     if not os.path.exists(pd): continue
+    if only and not any(d.startswith(o) for o in only): continue
     prop = d.split("-")[0]
     subprocess.run(["git", "-C", "/repo", "checkout", "--", "."], check=True)
     r = subprocess.run(["git", "-C", "/repo", "apply", pd])
